@@ -144,3 +144,11 @@ Theorem C03_executor_leak_refuted :
   exists s, xrun 1 true (xinit (fun _ => SContinue)) w_leak = Some s /\ idle s = true /\ reg s 5%Z = true.
 Proof. exact leak_refuted. Qed.
 Print Assumptions C03_executor_leak_refuted.
+
+(** the executor's own steps (init goroutine, hand-over, status check) are bounded by a measure: it comes to rest,
+    and at rest it waits only behind running actions (C03_executor_no_run_no_backlog) *)
+From FF Require Import ExecRegLive.
+Theorem C03_executor_own_steps_bounded : forall nworkers leak ls s s',
+  forallb is_internal ls = true -> xrun nworkers leak s ls = Some s' -> (length ls + xmeasure s' <= xmeasure s)%nat.
+Proof. exact own_steps_bounded. Qed.
+Print Assumptions C03_executor_own_steps_bounded.
